@@ -30,7 +30,7 @@ class Gen:
 
 
 def h_schedule(n: int, c1: int, c2: int, s1: int, order: bool, probe: int, acts=(0, 1), MAXCH=2,
-               overlap=False, _gate=None, _small=False):
+               overlap=False, rmode=False, _gate=None, _small=False):
     """a well-formed schedule of L actions over two iterchunks generators (chunk lengths c1, c2),
     up to two nested open_array() contexts, element reads and writes; then every survivor is
     finished (generators in either order)."""
@@ -42,7 +42,8 @@ def h_schedule(n: int, c1: int, c2: int, s1: int, order: bool, probe: int, acts=
     small(_small, n, c1, c2, s1)
     w = new_world()
     put_array(D, w, '/w/a', n, 'int32', 'little', ())
-    arr = D.array.Array('/w/a', accessmode='r+')
+    # rmode: a READ-ONLY handle whose second generator and contexts ask for accessmode='r+' explicitly
+    arr = D.array.Array('/w/a', accessmode='r' if rmode else 'r+')
     ref = Seq.of(('orig',), n)
     gens = [Gen(arr, c1, n, s1), Gen(arr, c2, n)]
     ctxs = []
@@ -51,7 +52,8 @@ def h_schedule(n: int, c1: int, c2: int, s1: int, order: bool, probe: int, acts=
     def advance(g):
         nonlocal ref
         if not g.started():
-            g.g = arr.iterchunks(g.c, stepsize=g.s if overlap and g is gens[0] else None)
+            g.g = arr.iterchunks(g.c, stepsize=g.s if overlap and g is gens[0] else None,
+                                 accessmode='r+' if (rmode and g is gens[1]) else None)
         fs = g.k * g.s
         lastend = (g.k - 1) * g.s + g.c if g.k >= 1 else 0
         full = fs + g.c <= n
@@ -89,7 +91,7 @@ def h_schedule(n: int, c1: int, c2: int, s1: int, order: bool, probe: int, acts=
                 g.done = True
             elif x == 4:
                 assume(len(ctxs) < 2)
-                cm = arr.open_array()
+                cm = arr.open_array(accessmode='r+') if rmode else arr.open_array()
                 cm.__enter__()
                 ctxs.append(cm)
             elif x == 5:
@@ -102,6 +104,7 @@ def h_schedule(n: int, c1: int, c2: int, s1: int, order: bool, probe: int, acts=
                 if not seq_equal(got, ref.cut(0, m), probe):
                     raise Violation('an element read differs from the array contents at that moment')
             elif x == 7:
+                assume(not rmode)
                 nwrites += 1
                 key = np._segs_key(ref)
                 arr[np.OpaqueIndex(f'i{nwrites}', True)] = np.OpaqueValue(f'w{nwrites}', True)
@@ -134,14 +137,14 @@ import numpy as np, darr
 spec = json.loads(SPEC)
 p = spec['path']; n = spec['n']; ROW = spec['rowscale']
 N = n * ROW
-a = darr.asarray(p, np.arange(N, dtype='int32'), accessmode='r+')
+a = darr.asarray(p, np.arange(N, dtype='int32'), accessmode='r' if spec.get('rmode') else 'r+')
 ref = np.arange(N, dtype='int32')
 gens = [None, None]; done = [False, False]; k = [0, 0]; cs = [spec['c1'] * ROW, spec['c2'] * ROW]
 ss = [spec.get('s1', spec['c1']) * ROW, spec['c2'] * ROW]; remd = [False, False]
 ctxs = []
 probs = []
 def advance(i):
-    if gens[i] is None: gens[i] = a.iterchunks(cs[i], stepsize=ss[i])
+    if gens[i] is None: gens[i] = a.iterchunks(cs[i], stepsize=ss[i], accessmode='r+' if (spec.get('rmode') and i == 1) else None)
     try: ch = next(gens[i])
     except StopIteration:
         done[i] = True; return
@@ -152,7 +155,7 @@ for x in spec['acts']:
     if x in (0, 1): advance(x)
     elif x in (2, 3): gens[x-2].close(); done[x-2] = True
     elif x == 4:
-        cm = a.open_array(); cm.__enter__(); ctxs.append(cm)
+        cm = a.open_array(accessmode='r+') if spec.get('rmode') else a.open_array(); cm.__enter__(); ctxs.append(cm)
     elif x == 5: ctxs.pop().__exit__(None, None, None)
     elif x == 6:
         if a[0:2].tobytes() != ref[0:2].tobytes(): probs.append('read differs')
@@ -180,7 +183,7 @@ def replay_schedule(cex, d):
     if max(n, c1, c2) > 64:
         return {'reproduced': False, 'skip': True, 'detail': 'sizes too large'}
     rowscale = max(1, (4 * 1024 * 1024) // (4 * max(1, min(c1, c2))))     # every chunk spans several MB
-    spec = dict(n=n, c1=c1, c2=c2, s1=int(fx.get('s1', c1)), acts=acts, order=bool(fx['order']), rowscale=rowscale)
+    spec = dict(n=n, c1=c1, c2=c2, s1=int(fx.get('s1', c1)), acts=acts, order=bool(fx['order']), rowscale=rowscale, rmode=bool(fx.get('rmode')))
     with rp.scratch() as tmp:
         spec['path'] = tmp + '/a'
         rc, out, err = rp.run_child(_CHILD.replace('SPEC', repr(json.dumps(spec))), timeout=300)
@@ -247,6 +250,8 @@ def obligations(tier):
     splits = [dict(acts=a, MAXCH=3 if thorough else 2, _must=('end',)) for a in keep]
     splits += [dict(acts=a, MAXCH=3 if thorough else 2, overlap=True, _must=('end',)) for a in keep
                if 7 in a and 0 in a]        # overlapping chunks matter when a write lands between advances
+    # read-only handle + users that ask for 'r+' explicitly (no writes): mode mixing among sharers of one map
+    splits += [dict(acts=a, MAXCH=2, rmode=True, _must=('end',)) for a in scheds if 7 not in a and (1 in a or 4 in a) and 0 in a]
     return [Ob('SCHED', 'h_schedule', splits=splits, timeout=T, replay='replay_schedule', per_path_timeout=60,
                sym='n, c1, c2 (array length, chunk lengths), order (finishing order of the survivors), probe',
                bounds=f'ALL {len(keep)} well-formed schedules (up to renaming g1<->g2) of L={L} actions over {{advance/close g1, '
